@@ -4,7 +4,7 @@
    proved are kept visible as [Definition ..._full_statement : Prop] (reported
    under coverage["open_statements"], never counted as obligations). *)
 From Coq Require Import ZArith NArith List Bool String.
-Require Import Model.Ast Model.Desugar Spec.ExpandSpec Proofs.DesugarProofs.
+Require Import Model.Ast Model.Desugar Spec.ExpandSpec Proofs.DesugarProofs Proofs.DesugarMetas Proofs.DesugarTotal.
 Import ListNotations.
 Local Open Scope string_scope.
 
@@ -76,6 +76,44 @@ Theorem C18_pass2_unreachable_never_fires : forall env lib body m stmts decls c 
 Proof. exact pass2_unreachable_never_fires. Qed.
 Print Assumptions C18_pass2_unreachable_never_fires.
 
+(* every meta of the desugared body occurs in the input body (the generated
+   declarations, initialisations and assignments re-use metas of the statement or
+   expression they stand for): used by C04 *)
+Theorem C18_desugar_metas_from_input : forall env lib body body',
+  desugar_template env lib body = DOk body' ->
+  forall m, In m (stmt_metas body') -> In m (stmt_metas body).
+Proof. exact desugar_metas_from_input. Qed.
+Print Assumptions C18_desugar_metas_from_input.
+
+(* more generally, any property of metas is inherited by the output *)
+Theorem C18_desugar_meta_property_inherited : forall (Q : meta -> Prop) env lib body body',
+  Forall Q (stmt_metas body) -> desugar_template env lib body = DOk body' -> Forall Q (stmt_metas body').
+Proof. exact desugar_meta_property_inherited. Qed.
+Print Assumptions C18_desugar_meta_property_inherited.
+
+(* PANIC FREEDOM.  On parser output -- every meta of every body belongs to a file
+   of the library, log strings are at most 230 bytes, named inputs come with one
+   argument each, template bodies are blocks ([wf_template], Spec.ExpandSpec) --
+   remove_syntactic_sugar as a whole returns templates, functions and reports: no
+   `unwrap`, `unreachable!`, `get_file_id` or indexing site fires (the mirror has 9
+   such sites) and the fuelled loop of split_string terminates. *)
+Theorem C18_desugar_never_panics : forall lib ts fs,
+  Forall (fun t => wf_template lib (snd t)) ts ->
+  Forall (fun f => Forall (meta_known lib) (stmt_metas (snd f))) fs ->
+  exists d, remove_syntactic_sugar lib ts fs = DOk d.
+Proof. exact remove_syntactic_sugar_total. Qed.
+Print Assumptions C18_desugar_never_panics.
+
+(* per template, with the hypotheses written out: the answer is a body or a report *)
+Theorem C18_desugar_template_never_panics : forall lib env body,
+  Forall (meta_known lib) (stmt_metas body) ->
+  Forall short_node (sub_stmts body) ->
+  Forall wf_node (stmt_exprs body) ->
+  (exists m l, body = Block m l) ->
+  match desugar_template env lib body with DOk _ | DErr _ => True | DPanic _ | DOutOfFuel => False end.
+Proof. exact desugar_template_total_expanded. Qed.
+Print Assumptions C18_desugar_template_never_panics.
+
 (* ---- hypotheses are satisfiable / the definitions compute ------------------ *)
 
 Definition m0 (a b : N) : meta := Meta a b (Some 0%N).
@@ -102,6 +140,15 @@ Example C18_example_desugars :
                [Substitution (m0 11 12) "c" [] AssignConstraintSignal
                   (Variable_ (m0 22 30) "A_2_22" [ComponentAccess "y"])]]]).
 Proof. vm_compute. reflexivity. Qed.
+
+Example C18_example_wellformed : wf_template [[0%N; 8%N]] ex_body.
+Proof.
+  unfold wf_template. repeat split.
+  - vm_compute. repeat constructor; (exists 0%N; split; [reflexivity | discriminate]).
+  - vm_compute. repeat constructor.
+  - vm_compute. repeat constructor.
+  - eexists; eexists; reflexivity.
+Qed.
 
 (* the same through the specification *)
 Example C18_example_spec :
@@ -139,21 +186,6 @@ Proof. eexists. vm_compute. split; reflexivity. Qed.
 
 (* ---- open statements (not proved; observed by the correspondence run) ------- *)
 
-Definition meta_known (lib : file_library) (m : meta) : Prop :=
-  exists f, m_file m = Some f /\ nth_error lib (N.to_nat f) <> None.
-
-(* every meta of the body belongs to a file of the library, log strings are at most
-   230 bytes (the parser has split them), named inputs come with one argument
-   each, the body is a block: then no `unwrap`/`unreachable!`/slice site fires *)
-Definition C18_desugar_never_panics_full_statement : Prop :=
-  forall env lib body,
-    (forall m, In m (map expr_meta (stmt_exprs body) ++ map stmt_meta (sub_stmts body)) -> meta_known lib m) ->
-    (forall t m args s, In t (sub_stmts body) -> t = LogCall m args -> In (LogStr s) args -> String.length s <= 230) ->
-    (forall x m id p ps ss nm, In x (stmt_exprs body) -> x = AnonymousComponent m id p ps ss (Some nm) ->
-                               List.length nm = List.length ss) ->
-    (exists m l, body = Block m l) ->
-    (exists b, desugar_template env lib body = DOk b) \/ (exists r, desugar_template env lib body = DErr r).
-
 Definition name_opt (lib : file_library) (prefix : string) (m : meta) : option string :=
   match gen_name lib prefix m with DOk s => Some s | _ => None end.
 
@@ -172,10 +204,3 @@ Definition C18_desugar_errors_exact_full_statement : Prop :=
     In (n, body) ts ->
     (exists r, desugar_template (env_of ts) lib body = DErr r) ->
     expand_spec (sig_table ts) (name_opt lib) (name_opt lib "anon_var") body = None.
-
-(* every meta of the output occurs in the input (used by C04) *)
-Definition C18_desugar_metas_from_input_full_statement : Prop :=
-  forall env lib body body',
-    desugar_template env lib body = DOk body' ->
-    forall m, In m (map expr_meta (stmt_exprs body') ++ map stmt_meta (sub_stmts body')) ->
-              In m (map expr_meta (stmt_exprs body) ++ map stmt_meta (sub_stmts body)).
